@@ -301,8 +301,13 @@ def u_fill(root, scalar):
 
 def u_rebin(root):
     eng = mk_engine(root)
+    errlib.c_reference_setter(eng)
     c = Contract("HistContainer", "rebin")
     c.requires.append(lambda vw: inv_H(vw, vw.pre))
+    ESlen = H("_error_dicts", "namemap", "len")[me]
+    c.requires.append(lambda vw: ESlen >= 0)
+    # the loop that re-points the uncertainty sources touches only the source objects: histogram state is framed
+    c.loops[0] = lambda e, s: z3.And(0 <= s.locals["#i0"].e, s.locals["#i0"].e <= ESlen)
 
     def init(e, st, me_):
         x = VSeq.fresh("new_bin_edges")
@@ -332,7 +337,11 @@ def u_rebin(root):
 
 def u_set_bins(root):
     eng = mk_engine(root)
+    errlib.c_reference_setter(eng)
     c = Contract("HistContainer", "set_bins")
+    ESlen = H("_error_dicts", "namemap", "len")[me]
+    c.requires.append(lambda vw: ESlen >= 0)
+    c.loops[0] = lambda e, s: z3.And(0 <= s.locals["#i0"].e, s.locals["#i0"].e <= ESlen)
     ndim = z3.Int("ndim")
 
     def init(e, st, me_):
